@@ -8,21 +8,38 @@
 -/
 namespace SlocModel.Placement
 
+/-- the three list families a file is tested against: extension list, file-name globs,
+    path / name patterns -/
+structure ListHits where
+  ext : Bool
+  file : Bool
+  pattern : Bool
+  deriving DecidableEq, Repr
+
+/-- `file_matches` / `file_matches_deny` / the global variants: the lists combine by OR -/
+def ListHits.any (h : ListHits) : Bool := h.ext || h.file || h.pattern
+
 /-- what a `[[structure.rules]]` entry with placement fields says about one *file* -/
 structure FileRuleBits where
   scopeMatches : Bool        -- the rule's scope matches the file's parent directory
   hasAllowlist : Bool        -- allow_extensions / allow_patterns / allow_files non-empty
-  allowMatch : Bool          -- `file_matches`: extension ∨ file-name glob ∨ pattern (OR)
-  denyMatch : Bool           -- `file_matches_deny`: extension ∨ file-name glob ∨ pattern (OR)
+  allow : ListHits           -- which allow lists the file is in
+  deny : ListHits            -- which deny lists the file is in
   hasNaming : Bool
   namingOk : Bool
   deriving DecidableEq, Repr
 
+def FileRuleBits.allowMatch (r : FileRuleBits) : Bool := r.allow.any
+def FileRuleBits.denyMatch (r : FileRuleBits) : Bool := r.deny.any
+
 structure FileGlobalBits where
   hasAllowlist : Bool        -- global allow_extensions / allow_files non-empty
-  allowMatch : Bool
-  denyMatch : Bool           -- global deny_extensions ∨ deny_files ∨ deny_patterns (OR)
+  allow : ListHits
+  deny : ListHits            -- global deny_extensions / deny_files / deny_patterns
   deriving DecidableEq, Repr
+
+def FileGlobalBits.allowMatch (g : FileGlobalBits) : Bool := g.allow.any
+def FileGlobalBits.denyMatch (g : FileGlobalBits) : Bool := g.deny.any
 
 inductive Origin where
   | global
